@@ -42,6 +42,35 @@ def check_design(case):
     return None
 
 
+def concat_designs():
+    """every concatenation of two pieces of one 6-bit bus (pieces 1-3 bits wide, anywhere, in both orders: adjacent,
+    overlapping, descending, ascending), and every way of cutting the bus into three pieces, in every order; one probe
+    device per bus bit makes each bit its own observable net"""
+    import hdl21 as h
+    import itertools as it
+    pieces = [(a, w) for w in (1, 2, 3) for a in range(0, 7 - w)]
+    cases = [(p, q) for p in pieces for q in pieces]
+    for a in range(1, 5):
+        for b in range(a + 1, 6):
+            for perm in it.permutations([(0, a), (a, b - a), (b, 6 - b)]):
+                cases.append(perm)
+
+    def mk(parts):
+        def b():
+            T = h.ExternalModule(name="Probe", port_list=[h.Inout(name="t")], desc="", domain="cc")
+            W = sum(w for _, w in parts)
+            E = h.ExternalModule(name=f"Wide{W}", port_list=[h.Inout(name="p", width=W)], desc="", domain="cc")
+            m = h.Module(name="Cat")
+            m.bus = h.Signal(width=6)
+            for k in range(6):
+                m.add(T()(t=m.bus[k]), name=f"t{k}")
+            m.i = E()(p=h.Concat(*[m.bus[a:a + w] for a, w in parts]))
+            return m
+        return b
+    for parts in cases:
+        yield ("concat/" + "+".join(f"[{a}:{a + w}]" for a, w in parts), mk(parts))
+
+
 def name_pressure_designs():
     """designs whose declared names equal, or compose to, the names elaboration invents (the family of C05): the
     connectivity as written must survive the renaming"""
@@ -214,15 +243,15 @@ def run(ctx):
             ctx.checker_errors.append(f"array rule: only {len(obs)} obligations generated")
         ctx.discharge(obs, c_arrays.KEY + " [per-element loop body]", info)
     ctx.run_bounded(
-        "to_proto-vs-meaning", __import__("itertools").chain(design_family(ctx.tier, ctx.seed), edited_designs(), order_designs()),
+        "to_proto-vs-meaning", __import__("itertools").chain(design_family(ctx.tier, ctx.seed), edited_designs(), order_designs(), concat_designs()),
         lambda c: check_design(c),
-        rule=RULE + "; plus 60 designs written in several steps (a port re-connected by each of the five operations) and 40 declaration orders of a reference chain ending on slices / concatenations of a driver's ports", bound="depth<=3, widths<=4 (8 thorough), <=4 (6) instances per module",
+        rule=RULE + "; plus 60 designs written in several steps (a port re-connected by each of the five operations) and 40 declaration orders of a reference chain ending on slices / concatenations of a driver's ports; every concatenation of two 1-3 bit pieces of a 6-bit bus and every three-piece cut of it in every order (285 designs)", bound="depth<=3, widths<=4 (8 thorough), <=4 (6) instances per module",
         key_of=lambda c: c[0], nontrivial=lambda c: nontrivial(c[0]))
     ctx.run_bounded("to_proto-vs-meaning under name pressure", name_pressure_designs(), check_named,
                     rule="the designs of C05's adversarial-name family (declared names equal to invented ones in both "
                          "orders; bundle members and implicit signals composing to one flat name, also on a child's "
                          "bundle port): when a package is exported its meaning equals the design's",
-                    bound="38 designs", key_of=lambda c: c[0])
+                    bound="the family of C05 (about 110 designs)", key_of=lambda c: c[0])
     return INFO
 
 
@@ -230,7 +259,7 @@ def replay(payload):
     from rtc.designs import designs
     want = (payload.get("input") or {}).get("design")
     if want:
-        for desc, b in list(edited_designs()) + list(order_designs()):
+        for desc, b in list(edited_designs()) + list(order_designs()) + list(concat_designs()):
             if desc == want:
                 r = check_design((desc, b))
                 print("replay:", r)
